@@ -239,15 +239,17 @@ def set_steps(draw):
         # few keys x values that compare equal across types (True == 1 == 1.0, 30 == 30.0 ...): a later set of the
         # "same" value in another type must still be stored and returned as given (defaults: timeout 30, max_retries 3)
         k = draw(st.sampled_from(["team", "retry_policy", "timeout", "timeout"]))
-        v = draw(st.sampled_from(["30", "30.0", "3", "3.0", "1", "1.0", "inf", "1e999"] if k == "timeout" else ["true", "1", "1.0", "false", "0", "0.0", "3", "3.0", "nan", "inf"]))
+        v = draw(st.sampled_from(["30", "30.0", "3", "3.0", "1.0", "inf", "inf", "1e999"] if k == "timeout" else ["true", "1", "1.0", "false", "0", "0.0", "3.0", "inf", "-inf"]))  # (no nan: nan != nan would make every equality oracle meaningless)
     elif kind == "custom":
         k = draw(st.sampled_from(CUSTOM_KEYS))
         v = draw(st.one_of(_num_strings(), st.sampled_from(["true", "False", "TRUE", "LOUD", "-x", "null", "~", "yes", "2024-01-01", "0x1F", "1:30", "[a, b]", "{a: 1}", "a: b", "# c", "'q'", "*ref", "&a", "!tag", "@at", "`t`", "%p", "|", ">", "- item", "? k", "", " lead", "trail ", "é✓", "line1\nline2", "tab\there", "\u2028sep", "\x85nel"]), _free_text))
     else:
         k = draw(st.sampled_from(["greeting", "version", "team", "retry_policy"]))
         v = draw(_free_text)
-    if not convert(v)[0]:
+    if not convert(v)[0] and kind != "retype":
         v = v + "x"  # narrowing: only values whose documented conversion is unambiguous (see ASSUMPTIONS)
+    # ("retype" keeps inf / nan / 1e999: whether they are accepted is left open, but a rejected `set` must leave the
+    #  file untouched and an accepted one must leave a file that still loads - those invariants hold for every value)
     return {"op": "set", "key": k, "value": v, "dd": draw(st.integers(0, 9)) != 0}
 
 
@@ -263,7 +265,7 @@ def _get_steps(keys):
 
 @st.composite
 def cases(draw):
-    file = draw(st.sampled_from([".thailint.yaml", ".thailint.yaml", ".thailint.yaml", "config.yaml", "lint.yml", "conf/custom.yaml", "settings.json"]))
+    file = draw(st.sampled_from([".thailint.yaml", ".thailint.yaml", ".thailint.yaml", "config.yaml", "lint.yml", "conf/custom.yaml", "settings.json", "settings.json"]))
     is_json = file.endswith(".json")
     doc = draw(st.one_of(st.none(), docs(json_file=is_json), docs(json_file=is_json), docs(json_file=is_json)))
     flavour = draw(st.sampled_from(["merge", "merge", "mixed", "mixed", "set"])) if not is_json else "set"
@@ -714,6 +716,8 @@ def step_set(p, file, step, model, labels):
         if g.exit != 0 or g.stdout != exp:
             return [Failure(f"get|accepted-value-not-returned|{klass}", {**ctx, "get_exit": g.exit, "get_stdout": g.stdout[-200:], "get_stderr": g.stderr[-300:], "expected_stdout": exp})], outcome
         model[key] = exp
+    else:
+        model.pop(key, None)  # accepted, but the documented conversion leaves the stored value open: nothing to expect later
     if post is None:
         return [Failure(f"set|written-file-no-longer-loads|{klass}", {**ctx, "show_exit": post_r.exit, "show_stderr": post_r.stderr[-300:]})], outcome
     # configuration keys are loaded with hyphens normalised to underscores: x-owner and x_owner are ONE setting
